@@ -3,6 +3,9 @@ import PytezosModel.Proofs.InterpGoodColl
 /-! Progress for the rules without sub-programs: on a well-typed stack (`StackWF`, `GoodStack`) on which the typing rule
 of the instruction applies, the reference rule is not stuck, and its result stack satisfies `GoodStack` again
 (`Res.Safe GoodStack`).  One lemma `safe_<I>` per instruction form, collected in `step_safe`. -/
+-- every `safe_<I>` takes the same hypotheses (`StackWF`, `GoodStack`), whether or not its rule needs both
+set_option linter.unusedSectionVars false
+
 namespace Interp
 open Typing
 
